@@ -24,4 +24,4 @@ for P in $PROP "$@"; do
   rm -f "$M.$P.log"
 done
 echo "RESULT $(basename $D): build=$BUILD tests=$TESTS demo_with_change=$DM demo_clean=$DC checks:$OUT"
-rm -rf "$M" "$C" /verif/replays
+rm -rf "$M" "$C" /verif/replays /tmp/verif-ev.*
